@@ -149,8 +149,30 @@ def run(repo: Repo, rep: Report, tier: str) -> None:
     # the dialect caches are part of the "order of first use" state: same slot rules as C13 (R13.3 / R13.3b / R13.4 / R13.7)
     from . import c13
 
-    c13._slots(repo, rep, c)
-    c13._who_constructs(repo, rep, c)
+    class _Only:
+        """Report proxy: C14 takes over only the slot rules of C13 (not its option / encoder rules)."""
+        KEEP = ("R13.3", "R13.3b", "R13.4", "R13.7")
+
+        def __init__(self, r):
+            self._r = r
+
+        def __getattr__(self, n):
+            return getattr(self._r, n)
+
+        def ok(self, rule, *a, **k):
+            if rule in self.KEEP:
+                self._r.ok(rule, *a, **k)
+
+        def violation(self, rule, *a, **k):
+            if rule in self.KEEP:
+                self._r.violation(rule, *a, **k)
+
+        def floor(self, rule, n):
+            if rule in self.KEEP:
+                self._r.floor(rule, n)
+
+    c13._slots(repo, _Only(rep), c)
+    c13._who_constructs(repo, _Only(rep), c)
 
 
 def _forwarding(repo: Repo, rep: Report) -> None:
